@@ -105,8 +105,13 @@ func (t *TrafBox) ParseReadSenc(defaultIVSize byte, moofStartPos uint64) error {
 		if sgpdEntryNr != sbgpInsideOffset+1 {
 			return fmt.Errorf("sgpd entry number must be first inside = 65536 + 1")
 		}
-		sgpdEntry := sgpd.SampleGroupEntries[sgpdEntryNr-sbgpInsideOffset-1]
-		seigEntry := sgpdEntry.(*SeigSampleGroupEntry)
+		if len(sgpd.SampleGroupEntries) == 0 {
+			return fmt.Errorf("sgpd box has no sample group entries")
+		}
+		seigEntry, ok := sgpd.SampleGroupEntries[0].(*SeigSampleGroupEntry)
+		if !ok {
+			return fmt.Errorf("sgpd entry is not a seig entry")
+		}
 		perSampleIVSize = seigEntry.PerSampleIVSize
 	}
 	err := senc.ParseReadBox(perSampleIVSize, t.Saiz)
